@@ -1,6 +1,7 @@
 package chain
 
 import (
+	"github.com/dgraph-io/badger/v4/verifhook"
 	"bytes"
 	"context"
 	"crypto/sha256"
@@ -43,6 +44,13 @@ var initOnce sync.Once
 func init() {
 	viper.Set("debug.dont_blame_oasis", true)
 	viper.Set("debug.allow_root", true)
+	// Replicas are created by the thousand (one node database each); the shipped 64 MiB memtable arena
+	// costs memory and tens of milliseconds per open.  Only the flush frequency depends on the size
+	// (see third_party/badger/verifhook); the crash phase of C01, which counts durable writes, is
+	// indifferent to it as well (flushes of the memtable are not durable-write boundaries of the node database API).
+	if os.Getenv("VERIF_BADGER_DEFAULT_MEMTABLE") == "" {
+		verifhook.MemTableSize.Store(8 << 20)
+	}
 }
 
 // Init performs the process-wide initialisation (logging off, debug flags,
